@@ -130,79 +130,54 @@ def rule_B1(ctx: Ctx) -> None:
     ctx.stat("bulk_random_sources", n_sources)
     if n_sources < 2:
         ctx.unknown(ctx.index.cls(NS), {"sources": n_sources}, "at least the two percolation draws are recognised as sources")
-    # the sanitiser itself
+    # the sanitiser itself, by abstract evaluation (E15) on arrays of symbolic cells: for every layer count k in {1, 2} and grid h x w in
+    # {1..3}^2 the result must be the *same* array object with exactly [0, -1, :] and [1, :, -1] replaced by False and every other cell still
+    # holding its own symbol; for k >= 3 the call must raise (after the 2-d layers were handled or not - nothing is returned)
     fill = ctx.index.func(f"{LM}.{FILL}")
     arr = fill.params()[0]
-    loops = [n for n in fill.node.body if isinstance(n, ast.For)]
-    exp = ("_fill_edges_with_walls clears [0, -1, :] (last row of the 'down' layer) and [1, :, -1] (last column of the 'right' layer), "
-           "raises for other dims, loops over range(shape[0]) and returns the array after the loop")
-    if len(loops) != 1:
-        ctx.unknown(fill, {"loops": len(loops)}, exp)
-        return
-    lp = loops[0]
-    dimv = lp.target.id
-    # path-sensitive walk of the loop body for each concrete layer index (finite domain {0, 1, 2, 3}): stores and raises per layer
-    from sa.fold import Evaluator, Unknown
+    exp = ("_fill_edges_with_walls clears [0, -1, :] (last row of the 'down' layer) and [1, :, -1] (last column of the 'right' layer) and nothing "
+           "else, in place, returns that array, and raises NotImplementedError for lattices with more than 2 layers")
+    from sa.absnp import MODELS as _NP, Arr
+    from sa.fold import EvalRaised, Evaluator, Unknown
 
-    ev = Evaluator()
+    def _name_hook(name, env):
+        if name in fill.module.assigns:
+            return Evaluator({"__name__": _name_hook}).ev(fill.module.assigns[name], {})
+        raise Unknown(f"free name `{name}`")
 
-    class _Leave(Exception):
-        pass
-
-    def walk(body, k, events):
-        for st_ in body:
-            if isinstance(st_, ast.Expr) and isinstance(st_.value, ast.Constant):
-                continue
-            if isinstance(st_, ast.Pass):
-                continue
-            if isinstance(st_, ast.If):
+    def _call_hook(ev_, node, env):
+        d = dotted_of(node.func) or ""
+        if d in _NP:
+            return _NP[d](*[ev_.ev(a_, env) for a_ in node.args], **{k_.arg: ev_.ev(k_.value, env) for k_ in node.keywords if k_.arg})
+        return NotImplemented
+    n_runs, bad, unk = 0, [], []
+    for k in (1, 2, 3, 4):
+        for h in (1, 2, 3):
+            for w in (1, 2, 3):
+                a0 = Arr([[[f"c{d}.{r}.{c}" for c in range(w)] for r in range(h)] for d in range(k)])
+                want = [[[False if (d == 0 and r == h - 1) or (d == 1 and c == w - 1) else f"c{d}.{r}.{c}" for c in range(w)] for r in range(h)] for d in range(k)]
+                n_runs += 1
                 try:
-                    t_ = bool(ev.ev(st_.test, {dimv: k}))
-                except Unknown:
-                    events.append(("unknown", X.U(st_.test)))
-                    raise _Leave()
-                walk(st_.body if t_ else st_.orelse, k, events)
-                continue
-            if isinstance(st_, ast.Assign) and isinstance(st_.targets[0], ast.Subscript) and X.U(st_.targets[0].value) == arr:
-                parts = N.subscript_parts(st_.targets[0])
-                forms = [N.slice_form(p, {dimv: N.affine(ast.Constant(k))}) for p in parts]
-                val_false = isinstance(st_.value, ast.Constant) and st_.value.value is False
-                events.append(("store", forms if val_false else None, X.U(st_)))
-                continue
-            if isinstance(st_, ast.Raise):
-                events.append(("raise", X.U(st_.exc)[:40] if st_.exc is not None else ""))
-                raise _Leave()
-            if isinstance(st_, (ast.Continue, ast.Break)):
-                events.append(("leave", type(st_).__name__))
-                raise _Leave()
-            events.append(("unknown", X.U(st_)[:60]))
-            raise _Leave()
-
-    per_dim = {}
-    for k in (0, 1, 2, 3):
-        evs: list = []
-        try:
-            walk(lp.body, k, evs)
-        except _Leave:
-            pass
-        per_dim[k] = evs
-    full = ("slice", None, None, None)
-    minus1 = ("idx", N.aff_key(N.affine(ast.Constant(-1))))
-    want = {0: [("idx", N.aff_key(N.affine(ast.Constant(0)))), minus1, full],
-            1: [("idx", N.aff_key(N.affine(ast.Constant(1)))), full, minus1]}
-    for k in (0, 1):
-        evs = per_dim[k]
-        stores = [e for e in evs if e[0] == "store"]
-        unknown = [e for e in evs if e[0] == "unknown"]
-        bad_leave = any(e[0] == "raise" or e == ("leave", "Break") for e in evs)
-        ok = None if unknown else (len(stores) == 1 and stores[0][1] == want[k] and not bad_leave)
-        ctx.judge(fill, ok, {"dim": k, "store": stores[0][2] if stores else None, "events": [e[0] for e in evs]}, exp,
-                  "the wrong boundary is cleared: edges leaving the grid survive (and legitimate edges are deleted)")
-    raises_else = all(any(e[0] == "raise" for e in per_dim[k]) and not any(e[0] in ("store", "unknown") for e in per_dim[k]) for k in (2, 3))
-    rng_ok = isinstance(lp.iter, ast.Call) and dotted_of(lp.iter.func) == "range" and len(lp.iter.args) == 1 and X.U(lp.iter.args[0]) == X.CT(f"{arr}.shape[0]")
-    rets = X.returns_of(fill.node)
-    ret_ok = len(rets) == 1 and X.U(rets[0].value) == arr and rets[0] in fill.node.body and fill.node.body.index(rets[0]) > fill.node.body.index(lp)
-    ctx.judge(fill, rng_ok and ret_ok and raises_else, {"loop": X.U(lp.iter), "returns_after_loop": ret_ok, "raises_for_other_dims": raises_else}, exp)
+                    got = Evaluator({"__call__": _call_hook, "__name__": _name_hook}).run_body(X.body_wo_doc(fill.node), {arr: a0})
+                except EvalRaised as e:
+                    if k <= 2 or e.exc_name != "NotImplementedError":
+                        bad.append({"shape": [k, h, w], "found": f"raises {e.exc_name}", "expected": "returns the array" if k <= 2 else "raises NotImplementedError"})
+                    continue
+                except Unknown as e:
+                    unk.append(f"shape {(k, h, w)}: {e}"[:140])
+                    continue
+                if k > 2:
+                    bad.append({"shape": [k, h, w], "found": "returns", "expected": "raises NotImplementedError (only 2-d lattices are supported)"})
+                elif got is not a0:
+                    bad.append({"shape": [k, h, w], "found": "returns another object than its argument" if isinstance(got, Arr) else f"returns {got!r}"[:60],
+                                "expected": "the argument itself, changed in place (gen_* callers rely on either)"} if not (isinstance(got, Arr) and got.data == want) else None)
+                    bad = [b for b in bad if b is not None]
+                    if isinstance(got, Arr) and got.data != want:
+                        bad.append({"shape": [k, h, w], "found": repr(got.data)[:120], "expected": repr(want)[:120]})
+                elif a0.data != want:
+                    bad.append({"shape": [k, h, w], "found": repr(a0.data)[:120], "expected": repr(want)[:120]})
+    ctx.judge(fill, False if bad else None if unk else True, {"abstract_arrays": n_runs, "deviations": bad[:3], "undecided": unk[:2]}, exp,
+              "the wrong boundary is cleared: edges leaving the grid survive (and legitimate edges are deleted)")
 
 
 def rule_B2(ctx: Ctx) -> None:
@@ -473,10 +448,11 @@ def rule_B4(ctx: Ctx) -> None:
         ctx.judge(f, ok, slot, exp, "the maze does not have the requested shape / is not boolean / does not start empty")
     # percolation: shape of the random array
     f = _gen(ctx, "gen_percolation")
-    d = X.assignments_to(f.node, "connection_list")
-    src = [x for x in d if _is_random_bulk(x)]
-    ok = len(src) == 1 and any(X.U(c.func) in ("np.random.rand",) and X.same_expr_x(c, None, "np.random.rand(lattice_dim, *grid_shape)") for c in ast.walk(src[0]) if isinstance(c, ast.Call))
-    ctx.judge(f, ok, {"draw": X.U(src[0]) if src else None}, "percolation draws an array of shape (lattice_dim, *grid_shape)")
+    # the bulk draw, wherever it is written (a local, or directly inside the constructor call)
+    src = [c for c in ast.walk(f.node) if isinstance(c, ast.Call) and (dotted_of(c.func) or "").startswith(("np.random.", "numpy.random.")) and _is_random_bulk(c)
+           and not any(_is_random_bulk(a) for a in [*c.args, *[k.value for k in c.keywords]])]
+    ok = len(src) == 1 and X.U(src[0].func) in ("np.random.rand",) and X.same_expr_x(src[0], None, "np.random.rand(lattice_dim, *grid_shape)")
+    ctx.judge(f, ok, {"draw": [X.U(x) for x in src]}, "percolation draws an array of shape (lattice_dim, *grid_shape)")
 
 
 def rule_B5(ctx: Ctx) -> None:
@@ -638,7 +614,7 @@ def rule_B9(ctx: Ctx) -> None:
 
 
 RULES = [
-    Rule("C01.B1", rule_B1, floor=6, doc="boundary sanitisation (taint)"),
+    Rule("C01.B1", rule_B1, floor=5, doc="boundary sanitisation (taint)"),
     Rule("C01.B2", rule_B2, floor=8, doc="lesser-endpoint idiom on in-bounds neighbours"),
     Rule("C01.B3", rule_B3, floor=5, doc="edge/visit pairing"),
     Rule("C01.B4", rule_B4, floor=3, doc="allocation"),
@@ -653,3 +629,13 @@ from sa import dims as _dims  # noqa: E402
 
 RULES.append(Rule("C01.AX", _dims.make_rule("C01", "C01.AX"), floor=1,
                   doc="axis-extent agreement: coordinate components are bounded by the extent of their own axis (E13)"))
+
+from sa import exits as _exits_ms  # noqa: E402
+
+RULES.append(Rule("C01.MS", _exits_ms.make_state_rule("C01", "C01.MS", _exits_ms.SCOPES.get("C01", [])), floor=1,
+                  doc="no hidden state on the anchored path (module level, per object, memoising decorators): results do not depend on the history of the process (E17)"))
+
+from sa import exits as _exits_nw  # noqa: E402
+
+RULES.append(Rule("C01.NW", _exits_nw.make_narrowing_rule("C01", "C01.NW", _exits_nw.SCOPES.get("C01", [])), floor=1,
+                  doc="no new narrowing cast (8/16-bit element types) on the anchored path: coordinates, lengths and indices do not wrap (E18)"))
